@@ -8,7 +8,7 @@ set -u
 P=$(readlink -f "$1"); PROP=$2; TIER=${3:-quick}; shift; shift; shift || true
 T=$(mktemp -d /tmp/vpmut.XXXXXX)
 git -C /repo worktree add --detach "$T/repo" HEAD >/dev/null 2>&1 || { echo "worktree failed"; exit 3; }
-cleanup() { git -C /repo worktree remove --force "$T/repo" >/dev/null 2>&1; rm -rf "$T"; }
+cleanup() { if [ -n "${KEEP:-}" ]; then echo "kept: $T"; return; fi; git -C /repo worktree remove --force "$T/repo" >/dev/null 2>&1; rm -rf "$T"; }
 trap cleanup EXIT
 for f in include/config.h include/qb/qbconfig.h; do [ -e /repo/$f ] && cp /repo/$f "$T/repo/$f"; done
 git -C "$T/repo" apply "$P" || { echo "patch does not apply"; exit 3; }
